@@ -487,6 +487,9 @@ func (p *c19) Exec(t *testing.T, scAny any) Outcome {
 		out.Infra = "bubble: " + res.BubbleErr
 		return out
 	}
+	if res.Adoptions > 0 {
+		out.stat("probe.goroutine-of-the-program-adopted", res.Adoptions)
+	}
 	if call == nil && sc.Op == "redial" {
 		out.stat("not-judged.first-dial-failed", 1)
 		return out
